@@ -51,7 +51,11 @@ def o_welch(spec, r, extra):
     if worst[0] > 1e-9 * tot:
         k = worst[1]; return True, f"{desc}: pxx[{k}] = {pxx[k]!r} is labelled f = {f[k]!r}, but the periodogram of the input at that frequency is {float(worst[2])!r} (the value belongs to another frequency)"
     return False, 'ok'
-ORACLES = {'welch': o_welch}
+def o_cohere(spec, r, extra):
+    if r['status'] != 'ok' or r['ret'] == H_THROW: return True, f"mscohere: {r['status']} / threw"
+    out = r['outs'][1][:r['ret']]
+    return any(abs(v - 1.0) > 1e-6 for v in out), f"mscohere(x, {spec[1][1]}*x) at signal level {max(abs(v) for v in spec[0][1]):.1e} = {out}; a scaled copy must give 1 at every frequency"
+ORACLES = {'welch': o_welch, 'cohere': o_cohere}
 
 def job_welch(res, cplx, nfft, winlen, noverlap, nseg, wkind, scale):
     mod, so = load(HARNESS); w_ = 2 if cplx else 1
@@ -144,10 +148,14 @@ def job_cohere(res, nfft, winlen, noverlap, nseg, wkind):
         if not (isF(o) and o.op == 'fdiv'): res.inc(f'{label}: output {k} is not a quotient'); continue
         try: num = poly_forms([o.args[0]], 6)[0]; den = poly_forms([o.args[1]], 6)[0]
         except (NonLinear, PolyTooBig) as e: res.inc(f'{label}: {e}'); continue
-        scale = sum(abs(v) for v in den.values()) or 1
-        d = poly_l1_diff(num, den) / scale
-        if ground_le(res, d, Fraction(1, 10 ** 11), 'coh'): res.ob(True, 'POLY-ground', f'{label}: forall x, c. |Pxy[{k}]|^2 and Pxx[{k}]*Pyy[{k}] are the same polynomial: coherence == 1 wherever defined (relative distance {float(d):.2g})')
-        else: res.inc(f'{label}: bin {k}: numerator and denominator differ (relative coefficient distance {float(d):.3g})')
+        # same monomials, each coefficient equal up to 1e-9 relative: an absolute term (e.g. an epsilon guard) in only one of them makes the quotient depend on the signal level
+        mono = set(num) | set(den); big = max(abs(v) for v in den.values()) if den else Fraction(1)
+        worst = max([abs(num.get(k_, 0) - den.get(k_, 0)) / max(abs(den.get(k_, 0)), abs(num.get(k_, 0))) for k_ in mono if max(abs(den.get(k_, 0)), abs(num.get(k_, 0))) > big * Fraction(1, 10 ** 12) or len(k_) < 4] + [Fraction(0)])
+        if ground_le(res, worst, Fraction(1, 10 ** 9), 'coh'): res.ob(True, 'POLY-ground', f'{label}: forall x, c. |Pxy[{k}]|^2 and Pxx[{k}]*Pyy[{k}] are the same homogeneous polynomial (no level-dependent term): coherence == 1 at every signal level (worst relative coefficient gap {float(worst):.2g})')
+        else:
+            xv = [1e-7 * (math.sin(1.3 * i) + 0.2) for i in range(nx)]
+            confirm(res, PID, HARNESS, 'h_mscohere_scaled', [('pf64', xv), ('f64', 3.0), ('i32', nx), ('i32', wkind), ('i32', winlen), ('i32', noverlap), ('i32', nfft), ('pf64', [0.0] * nout)], 'i32', 'cohere', ORACLES, 'mscohere:scaled-copy',
+                    f'{label}: bin {k}: numerator and denominator of the coherence differ (relative coefficient gap {float(worst):.3g}): a scaled copy is not reported as fully coherent at every level'); return
 
 JOBFNS = {'welch': job_welch, 'cohere': job_cohere}
 
